@@ -416,7 +416,22 @@ func (g *c09G) coreStmt(d int, b *strings.Builder) {
 		}
 		fmt.Fprintf(b, "%s}\n", ind(d))
 	case p < 90:
-		fmt.Fprintf(b, "%s%s\n", ind(d), g.edge())
+		e := g.edge()
+		fmt.Fprintf(b, "%s%s\n", ind(d), e)
+		if g.r.Chance(0.3) {
+			// parallel connections: the same connection declared again (also in another letter case)
+			k := g.r.Range(1, 3)
+			for i := 0; i < k; i++ {
+				switch g.r.Intn(4) {
+				case 0:
+					fmt.Fprintf(b, "%s%s\n", ind(d), strings.ToUpper(e))
+				case 1:
+					fmt.Fprintf(b, "%s%s\n", ind(d), strings.ToLower(e))
+				default:
+					fmt.Fprintf(b, "%s%s\n", ind(d), e)
+				}
+			}
+		}
 	case p < 95:
 		fmt.Fprintf(b, "%s%s: %s\n", ind(d), g.edge(), g.label())
 	default:
@@ -677,6 +692,7 @@ func c09GenProgram(r *Rng, full bool, hostile float64) c09Prog {
 var c09Corpus = []c09Prog{
 	{Text: "a; b; a.x\n", Core: true},
 	{Text: "a -> b -> c\nb -> a\na -> b\n", Core: true},
+	{Text: "a -> b\na -> b\nA -> B\na -> b\na <- b\na -- b\na -- b\na -- b\nx: {a -> b; a -> b; a -> b; a -> b}\n", Core: true},
 	{Text: "A; a; a.B; A.b.c\n", Core: true},
 	{Text: "İ; i; I; ı\n", Core: true},
 	{Text: "K; k; K\nſ; s; S\nσ; ς; Σ\n", Core: true},
@@ -695,6 +711,8 @@ var c09Corpus = []c09Prog{
 	{Text: "s: {shape: sequence_diagram; alice -> bob; bob.t -> alice.t; g: {alice -> bob}; alice.alice -> bob}\n"},
 	{Text: "a; b; c\n*.x\n* -> c\n"},
 	{Text: "vars: {m1: {va; vb -> va}}\nx: {...${m1}}\ny; ...${m1}\n"},
+	{Text: "vars: {m1: {va}}\na\nx: {...${m1}}\nb\na.k\n"},
+	{Text: "vars: {m1: {va}}\na\nx: {...${m1}}\na.k\nb\n"},
 	{Text: "x: @f1\n...@f2\ny\n", Files: map[string]string{"f1.d2": "p; q -> p\n", "f2.d2": "y.z; w\n"}},
 	{Text: "a: null\na\nb -> a\n(b -> a)[0]: null\n"},
 	{Text: "g: {grid-rows: 2; a; b; c -> a}\n"},
@@ -956,6 +974,13 @@ func c09Cases(p c09Prog) []Case {
 		Nontrivial: nobj >= 2 && (ncont > 0 || nedge > 0)}
 	c1.Coq = fmt.Sprintf("CStruct %s\n   %s\n   %s\n   %s", res.Boards[0].coq(), c09CoqBoards(res.Boards[1:]), sorts, replay)
 	out := []Case{c1}
+	c3 := Case{Class: p.Class + "/root-order", Input: input, Impl: map[string]any{"boards": impl[:1]}, Key: "rootorder:" + p.Text,
+		Nontrivial: len(res.Boards[0].Objs) >= 3}
+	c3.Coq = fmt.Sprintf("CRootOrder %s\n   %s", res.Boards[0].coq(), sorts)
+	if c09HasUnplaced(res.Boards[0]) {
+		c3.KF = []string{"C09-order-var-barrier"}
+	}
+	out = append(out, c3)
 	if len(res.Boards) > 1 {
 		c2 := Case{Class: p.Class + "/nested-order", Input: input, Impl: map[string]any{"boards": impl[1:]}, Key: "order:" + p.Text,
 			Nontrivial: nobj >= 2}
@@ -966,6 +991,19 @@ func c09Cases(p c09Prog) []Case {
 		out = append(out, c2)
 	}
 	return out
+}
+
+// Known finding C09-order-var-barrier: signature = the root board contains an object whose first
+// reference is a variable substitution (Reference.IsVar) or that has no reference at all: the comparator
+// of SortObjectsByAST answers "i < j" for every pair involving such an object.
+func c09HasUnplaced(b *c09Board) bool {
+	for _, k := range b.Objs {
+		o := b.Store[k].ptr
+		if len(o.References) == 0 || o.References[0].IsVar {
+			return true
+		}
+	}
+	return false
 }
 
 func c09Gen(r *Rng, tier string, n int) []Case {
